@@ -391,6 +391,13 @@ class HelperView:
                     elif strict:
                         self.bad(n, f"call of the method `{m}` on (an alias of) self.{'/'.join(rs)}: I do not know whether it mutates")
                     continue
+                if isinstance(f, ast.Name) and roots(f):
+                    # `model = self.predictor_model; model(X)`: a forward pass through a local alias
+                    kw = self._training_kw(n)
+                    if kw is not None:
+                        modes.update((r, kw) for r in roots(f))
+                    note_args(n, "<alias>")
+                    continue
                 if not isinstance(f, (ast.Name, ast.Attribute)) and roots(f):
                     # `self.ops[k](x)`: a callable stored in a helper attribute
                     if strict:
@@ -477,6 +484,9 @@ class HelperView:
                     md = self._mode_of_call(n, f.attr)
                     for r in sorted(self._roots(f.value, alias)):
                         ev.append(("mode", r, md))
+            elif isinstance(n, ast.Call) and isinstance(n.func, ast.Name) and self._roots(n.func, alias):
+                for r in sorted(self._roots(n.func, alias)):
+                    ev.append(("forward", r, self._training_kw(n)))
         visit(node)
         return ev
 
